@@ -617,8 +617,11 @@ def judge_interceptor(model, mapper, n, fn, kinds, lookup="subst_func"):
     holder = [None]
 
     def rec(it, node, a, k):
+        # (children come back changed: a handler that looks the node up only
+        # after rebuilding it asks about another object)
         calls.append(a[0])
-        return a[0]
+        return Tok(f"rec({a[0]!r})", origin=a[0]) if isinstance(a[0], Tok) \
+            else a[0]
     hooks = {"rec": rec, "": rec, "__call__": rec}
     it, mp, expr, slots, extras, kw = _setup(model, mapper, n, fn, kinds, hooks)
     holder[0] = mp
